@@ -167,7 +167,9 @@ pub fn run_dedupe(op: DedupeOp, config: DedupeConfig, log: &dyn Log) -> Result<(
         dedupe_config.match_links |= c.match_links;
 
         if dedupe_config.rf_over.is_none() {
-            dedupe_config.rf_over = Some(c.rf_over())
+            // Not `c.rf_over()`: that one is lowered to 0 when a transform is set, which is meant
+            // for pruning by size only. The number of replicas to keep is what `group` was asked for.
+            dedupe_config.rf_over = Some(c.rf_over.unwrap_or(1))
         }
         if dedupe_config.isolated_roots.is_empty() && c.isolate {
             dedupe_config.isolated_roots = c.isolated_roots();
